@@ -20,6 +20,15 @@ What is extracted (each with a sentinel when the expected shape is missing):
                    buffering branch does nothing but `extend_window()` and `buffer.append(item)`: no yield,
                    no await, no other statement (a size- or time-dependent early hand-over lives there)
 
+  * debFireLE / debLoopShape / debExtendFromNow / debInitShape - the timer arithmetic of `Debouncer` (model
+                   `WfModel/IterDebounce.lean`): `_loop` is `while not signal.is_set(): now = get_time();
+                   r = min(complete_time, max_complete_time) - now; if r <= 0: signal.set() else: await sleep(r)`
+                   (the comparison operator itself is generated: `<=` / `<`), `extend_window` is
+                   `complete_time = get_time() + debounce_seconds`, `__init__` sets `complete_time = start + debounce`,
+                   `max_complete_time = start + max_window` and starts `_loop` as a task
+  * dspDebouncerArgs - debounced_sorted_prefix builds `Debouncer(debounce_seconds, max_window_seconds)` from its own parameters
+  * dspDefaultDebounceMs / dspDefaultMaxWindowMs / debDefaultDebounceMs / debDefaultMaxWindowMs - parameter defaults, in ms
+
 `int_constants()` lists every integral numeric literal >= 2 of the module: the check feeds bursts whose
 sizes straddle each of them (a threshold on the number of buffered items can only be one of these).
 """
@@ -51,6 +60,9 @@ def extract() -> dict:
     facts: dict = {"passMode": "unknown", "markerCmp": None, "markerYield": None, "markerInBand": True, "mergeDefaultStop": None,
                    "dspMergeStop": None, "dspSources": None, "waitFirstCompleted": False, "sortStableByKey": False,
                    "dspYieldSites": None, "bufferBranchHoldsBack": False,
+                   "debFireLE": None, "debLoopShape": False, "debExtendFromNow": False, "debInitShape": False,
+                   "dspDebouncerArgs": False, "dspDefaultDebounceMs": None, "dspDefaultMaxWindowMs": None,
+                   "debDefaultDebounceMs": None, "debDefaultMaxWindowMs": None,
                    "notes": []}
     notes = facts["notes"]
     tree = ast.parse(open(repo_path(REL)).read())
@@ -197,7 +209,145 @@ def extract() -> dict:
             facts["markerYield"] = "name:" + ys[0].value.id
     if facts["markerYield"] is None:
         notes.append("iterutils: the second merged source does not yield exactly one literal / module-level name")
+    _extract_debouncer(facts, dsp, deb)
     return facts
+
+
+def _self_attr(n: ast.AST, attr: str | None = None) -> str | None:
+    """`self.<attr>` -> attr"""
+    if isinstance(n, ast.Attribute) and isinstance(n.value, ast.Name) and n.value.id == "self" and (attr is None or n.attr == attr):
+        return n.attr
+    return None
+
+
+def _is_get_time_call(n: ast.AST) -> bool:
+    return isinstance(n, ast.Call) and not n.args and not n.keywords and _self_attr(n.func, "get_time") is not None
+
+
+def _ms(v: ast.AST | None) -> int | None:
+    if isinstance(v, ast.Constant) and isinstance(v.value, (int, float)) and not isinstance(v.value, bool):
+        x = float(v.value) * 1000.0
+        if x >= 0 and abs(x - round(x)) < 1e-9:
+            return int(round(x))
+    return None
+
+
+def _extract_debouncer(facts: dict, dsp: ast.AST, deb: ast.ClassDef) -> None:
+    """the timer arithmetic of `Debouncer` (tolerant of renamed locals and reordered independent statements)"""
+    notes = facts["notes"]
+    # ---- _loop
+    lp = _find_func(deb, "_loop")
+    wh = next((n for n in (lp.body if lp is not None else []) if isinstance(n, ast.While)), None)
+    if wh is None:
+        notes.append("iterutils: Debouncer._loop has no while loop")
+    else:
+        t = wh.test
+        test_ok = (isinstance(t, ast.UnaryOp) and isinstance(t.op, ast.Not) and isinstance(t.operand, ast.Call)
+                   and isinstance(t.operand.func, ast.Attribute) and t.operand.func.attr == "is_set"
+                   and _self_attr(t.operand.func.value, "complete_signal") is not None)
+        time_names = {s.targets[0].id for s in wh.body if isinstance(s, ast.Assign) and len(s.targets) == 1
+                      and isinstance(s.targets[0], ast.Name) and _is_get_time_call(s.value)}
+        rem_names = set()
+        for s_ in wh.body:
+            if (isinstance(s_, ast.Assign) and len(s_.targets) == 1 and isinstance(s_.targets[0], ast.Name)
+                    and isinstance(s_.value, ast.BinOp) and isinstance(s_.value.op, ast.Sub)
+                    and isinstance(s_.value.right, ast.Name) and s_.value.right.id in time_names
+                    and isinstance(s_.value.left, ast.Call) and isinstance(s_.value.left.func, ast.Name)
+                    and s_.value.left.func.id == "min" and not s_.value.left.keywords
+                    and sorted(_self_attr(a) or "?" for a in s_.value.left.args) == ["complete_time", "max_complete_time"]):
+                rem_names.add(s_.targets[0].id)
+        iff = next((s_ for s_ in wh.body if isinstance(s_, ast.If)), None)
+        branch_ok = False
+        if iff is not None and isinstance(iff.test, ast.Compare) and len(iff.test.ops) == 1 and isinstance(iff.test.left, ast.Name) \
+                and iff.test.left.id in rem_names and isinstance(iff.test.comparators[0], ast.Constant) \
+                and iff.test.comparators[0].value == 0 and not isinstance(iff.test.comparators[0].value, bool):
+            if isinstance(iff.test.ops[0], ast.LtE):
+                facts["debFireLE"] = True
+            elif isinstance(iff.test.ops[0], ast.Lt):
+                facts["debFireLE"] = False
+            sets = [s_ for s_ in iff.body if isinstance(s_, ast.Expr) and isinstance(s_.value, ast.Call)
+                    and isinstance(s_.value.func, ast.Attribute) and s_.value.func.attr == "set"
+                    and _self_attr(s_.value.func.value, "complete_signal") is not None]
+            sleeps = [s_ for s_ in iff.orelse if isinstance(s_, ast.Expr) and isinstance(s_.value, ast.Await)
+                      and isinstance(s_.value.value, ast.Call) and isinstance(s_.value.value.func, ast.Attribute)
+                      and s_.value.value.func.attr == "sleep" and len(s_.value.value.args) == 1
+                      and isinstance(s_.value.value.args[0], ast.Name) and s_.value.value.args[0].id in rem_names]
+            branch_ok = len(sets) == 1 and len(iff.body) == 1 and len(sleeps) == 1 and len(iff.orelse) == 1
+        n_await = sum(1 for n in ast.walk(lp) if isinstance(n, ast.Await))
+        facts["debLoopShape"] = bool(test_ok and rem_names and branch_ok and n_await == 1 and len(wh.body) == 3
+                                     and facts["debFireLE"] is not None)
+        if not facts["debLoopShape"]:
+            notes.append("iterutils: Debouncer._loop is not `while not signal.is_set(): now = get_time(); r = min(complete_time, "
+                         "max_complete_time) - now; if r <= 0: signal.set() else: await sleep(r)`")
+    # ---- extend_window
+    ew = _find_func(deb, "extend_window")
+    if ew is not None:
+        body = [s_ for s_ in ew.body if not (isinstance(s_, ast.Expr) and isinstance(s_.value, ast.Constant))]
+        tn = {s_.targets[0].id for s_ in body if isinstance(s_, ast.Assign) and len(s_.targets) == 1
+              and isinstance(s_.targets[0], ast.Name) and _is_get_time_call(s_.value)}
+
+        def _now(n: ast.AST) -> bool:
+            return (isinstance(n, ast.Name) and n.id in tn) or _is_get_time_call(n)
+
+        sets = [s_ for s_ in body if isinstance(s_, ast.Assign) and len(s_.targets) == 1 and _self_attr(s_.targets[0]) is not None]
+        ok = (len(sets) == 1 and _self_attr(sets[0].targets[0]) == "complete_time" and isinstance(sets[0].value, ast.BinOp)
+              and isinstance(sets[0].value.op, ast.Add)
+              and ((_now(sets[0].value.left) and _self_attr(sets[0].value.right, "debounce_seconds") is not None)
+                   or (_now(sets[0].value.right) and _self_attr(sets[0].value.left, "debounce_seconds") is not None))
+              and len(body) == len(sets) + len(tn) and not any(isinstance(n, (ast.Await, ast.If, ast.While, ast.For)) for n in ast.walk(ew)))
+        facts["debExtendFromNow"] = bool(ok)
+    if not facts["debExtendFromNow"]:
+        notes.append("iterutils: Debouncer.extend_window is not `complete_time = get_time() + debounce_seconds`")
+    # ---- __init__
+    ini = _find_func(deb, "__init__")
+    if ini is not None:
+        asg = {}
+        for s_ in ini.body:
+            if isinstance(s_, ast.Assign) and len(s_.targets) == 1 and _self_attr(s_.targets[0]) is not None:
+                asg.setdefault(_self_attr(s_.targets[0]), []).append(s_.value)
+
+        def _sum_of(v: ast.AST, a: str, b: str) -> bool:
+            return (isinstance(v, ast.BinOp) and isinstance(v.op, ast.Add)
+                    and sorted([_self_attr(v.left) or "?", _self_attr(v.right) or "?"]) == sorted([a, b]))
+
+        def _param(v: ast.AST, name: str) -> bool:
+            return isinstance(v, ast.Name) and v.id == name
+
+        ok = (all(len(asg.get(k, [])) == 1 for k in ("start_time", "complete_time", "max_complete_time", "debounce_seconds",
+                                                     "max_window_seconds", "get_time"))
+              and _is_get_time_call(asg["start_time"][0])
+              and _sum_of(asg["complete_time"][0], "start_time", "debounce_seconds")
+              and _sum_of(asg["max_complete_time"][0], "start_time", "max_window_seconds")
+              and _param(asg["debounce_seconds"][0], "debounce_seconds") and _param(asg["max_window_seconds"][0], "max_window_seconds")
+              and _param(asg["get_time"][0], "get_time"))
+        starts = [n for n in ast.walk(ini) if isinstance(n, ast.Call) and isinstance(n.func, ast.Attribute) and n.func.attr == "create_task"
+                  and len(n.args) == 1 and isinstance(n.args[0], ast.Call) and _self_attr(n.args[0].func, "_loop") is not None]
+        facts["debInitShape"] = bool(ok and len(starts) == 1)
+        names = [a.arg for a in ini.args.args]
+        dflt = dict(zip(names[len(names) - len(ini.args.defaults):], ini.args.defaults))
+        facts["debDefaultDebounceMs"] = _ms(dflt.get("debounce_seconds"))
+        facts["debDefaultMaxWindowMs"] = _ms(dflt.get("max_window_seconds"))
+    if not facts["debInitShape"]:
+        notes.append("iterutils: Debouncer.__init__ does not set complete_time = start + debounce, max_complete_time = start + max_window "
+                     "and start exactly one `_loop` task")
+    # ---- how debounced_sorted_prefix builds it, and its own defaults
+    for n in ast.walk(dsp):
+        if isinstance(n, ast.Call) and isinstance(n.func, ast.Name) and n.func.id == "Debouncer":
+            pos = [a.id if isinstance(a, ast.Name) else "?" for a in n.args]
+            kws = {k.arg: (k.value.id if isinstance(k.value, ast.Name) else "?") for k in n.keywords}
+            full = dict(zip(["debounce_seconds", "max_window_seconds", "get_time"], pos))
+            full.update(kws)
+            facts["dspDebouncerArgs"] = full == {"debounce_seconds": "debounce_seconds", "max_window_seconds": "max_window_seconds"}
+    if not facts["dspDebouncerArgs"]:
+        notes.append("iterutils: debounced_sorted_prefix does not build Debouncer(debounce_seconds, max_window_seconds) from its parameters")
+    kwd = {a.arg: d for a, d in zip(dsp.args.kwonlyargs, dsp.args.kw_defaults)}
+    names = [a.arg for a in dsp.args.args]
+    kwd.update(dict(zip(names[len(names) - len(dsp.args.defaults):], dsp.args.defaults)))
+    facts["dspDefaultDebounceMs"] = _ms(kwd.get("debounce_seconds"))
+    facts["dspDefaultMaxWindowMs"] = _ms(kwd.get("max_window_seconds"))
+    for k in ("dspDefaultDebounceMs", "dspDefaultMaxWindowMs", "debDefaultDebounceMs", "debDefaultMaxWindowMs"):
+        if facts[k] is None:
+            notes.append(f"iterutils: no numeric default (whole milliseconds) found for {k}")
 
 
 def int_constants() -> list[int]:
@@ -247,6 +397,17 @@ def generate(notes: list[str]) -> list[str]:
         f"def sortStableByKey : Bool := {_b(f['sortStableByKey'])}",
         f"def dspYieldSites : Nat := {f['dspYieldSites'] if isinstance(f['dspYieldSites'], int) else 0}",
         f"def bufferBranchHoldsBack : Bool := {_b(f['bufferBranchHoldsBack'])}",
+        "/-- `if remaining <= 0:` in `Debouncer._loop` (false: `<`; unknown shapes are reported by `debLoopShape`) -/",
+        f"def debFireLE : Bool := {_b(f['debFireLE'])}",
+        f"def debLoopShape : Bool := {_b(f['debLoopShape'])}",
+        f"def debExtendFromNow : Bool := {_b(f['debExtendFromNow'])}",
+        f"def debInitShape : Bool := {_b(f['debInitShape'])}",
+        f"def dspDebouncerArgs : Bool := {_b(f['dspDebouncerArgs'])}",
+        f"def dspDefaultsKnown : Bool := {_b(all(isinstance(f[k], int) for k in ('dspDefaultDebounceMs', 'dspDefaultMaxWindowMs', 'debDefaultDebounceMs', 'debDefaultMaxWindowMs')))}",
+        f"def dspDefaultDebounceMs : Int := {f['dspDefaultDebounceMs'] if isinstance(f['dspDefaultDebounceMs'], int) else 0}",
+        f"def dspDefaultMaxWindowMs : Int := {f['dspDefaultMaxWindowMs'] if isinstance(f['dspDefaultMaxWindowMs'], int) else 0}",
+        f"def debDefaultDebounceMs : Int := {f['debDefaultDebounceMs'] if isinstance(f['debDefaultDebounceMs'], int) else 0}",
+        f"def debDefaultMaxWindowMs : Int := {f['debDefaultMaxWindowMs'] if isinstance(f['debDefaultMaxWindowMs'], int) else 0}",
         "end Gen",
         "end IterUtils",
     ]
